@@ -491,6 +491,13 @@ func runExpr(c *hx.Ctx, g *gen, text string, mutated bool) {
 	r := roundTrip(text)
 	op := "expr " + hx16(text)
 	ans := r.answer()
+	if r.accepted && strings.Contains(r.t1, "<*") {
+		// a node type outside the model (sub-select IN condition, CASE): not a modelled case
+		c.Count("answer:unmodelled-node-type")
+		c.Emit("xexpr "+hx16(text), "skip")
+		c.Case("xexpr "+text, false)
+		return
+	}
 	if g.outOfDomain && r.accepted {
 		// floats beyond the decimal model: spec diff only (bit patterns compared)
 		op = "xexpr " + hx16(text)
